@@ -122,6 +122,18 @@ impl Visitor<Diagnostic> for SymbolTable<'_, Id, DummyNode> {
         node.recurse_visit(self)
     }
 
+    fn visit_for(&mut self, node: &ironplc_dsl::textual::For) -> Result<(), Diagnostic> {
+        // The control variable is a variable like any other
+        if self.find(&node.control).is_none() {
+            return Err(Diagnostic::problem(
+                Problem::VariableUndefined,
+                Label::span(node.control.span(), "Undefined variable"),
+            )
+            .with_context_id("variable", &node.control));
+        }
+        node.recurse_visit(self)
+    }
+
     fn visit_named_variable(
         &mut self,
         node: &ironplc_dsl::textual::NamedVariable,
